@@ -558,6 +558,13 @@ func main() {
 				map[string]interface{}{"history": h.name, "steps": stepsDesc(h), "faults": []string{}}, in.base.errs, nil)
 			continue
 		}
+		// the uninterrupted run itself must leave memory and database in agreement: whatever is only in
+		// one of them differs from the uninterrupted run as soon as the node restarts
+		if self := compare(in.base.final, in.base.final); len(self) > 0 {
+			r.Violate("uninterrupted-run-memory-differs-from-database "+h.name, "after the uninterrupted run of the history the in-memory registry view and the database disagree (a restart alone changes the state): "+strings.Join(self, " ; "), "c12",
+				map[string]interface{}{"history": h.name, "steps": stepsDesc(h), "faults": []string{}}, self, "memory == database")
+			continue
+		}
 		// determinism of the call log (the fault points are indexes into it)
 		again := r0.execute(h, in.blocks, in.stepBlk, nil, -1)
 		if !equalLogs(again.logs[0], in.base.logs[0]) {
